@@ -14,6 +14,7 @@ import (
 
 	"github.com/martian-lang/martian/martian/core"
 	"github.com/martian-lang/martian/martian/syntax"
+	"github.com/martian-lang/martian/martian/util"
 )
 
 func c10CompileText(dir, lib, inv string, checkSrc bool, extra map[string]string) string {
@@ -147,6 +148,55 @@ func c10Provocations(c *Ctx) map[string]func() string {
 			return fmt.Sprint(err)
 		}
 	}
+	// typed maps of structs: project a path that does not exist / filter values that are not structs
+	if _, _, ast, err := syntax.ParseSourceBytes([]byte("struct Pt(\n    int x,\n    string label,\n)\n\nstage S(\n    in  map<Pt> pts,\n    out int r,\n    src comp \"bin/s\",\n)\n"),
+		filepath.Join(dir, "pt.mro"), nil, false); err == nil {
+		lookup := &ast.TypeTable
+		mapPt := lookup.Get(syntax.TypeId{Tname: "Pt", MapDim: 1})
+		mapInt := lookup.Get(syntax.TypeId{Tname: "int", MapDim: 1})
+		bad := core.LazyArgumentMap{}
+		for i := 0; i < n; i++ {
+			bad[fmt.Sprintf("k%02d", (i*7)%n)] = json.RawMessage(fmt.Sprintf("\"notastruct%d\"", i))
+		}
+		out["LazyArgumentMap.Path"] = func() string {
+			_, err := bad.Path("x", mapPt, mapInt, lookup)
+			return fmt.Sprint(err)
+		}
+		out["LazyArgumentMap.filter"] = func() string {
+			_, err := core.VerifFilterArgs(bad, mapPt, lookup)
+			return fmt.Sprint(err)
+		}
+	}
+	// Exp.equal through EquivalentCall: the logged reason names the first differing map entry
+	{
+		mk := func(off int) string {
+			var ents []string
+			for i := 0; i < n; i++ {
+				ents = append(ents, fmt.Sprintf("\"k%02d\": %d", (i*7)%n, i+off))
+			}
+			return "stage ST(\n    in  map<int> m,\n    in  int x,\n    out int r,\n    src comp \"bin/st\",\n)\n\npipeline TOP(\n    in  int x,\n    out int r,\n)\n{\n    call ST(\n        m = {" +
+				strings.Join(ents, ", ") + "},\n        x = self.x,\n    )\n\n    return (\n        r = ST.r,\n    )\n}\n\ncall TOP(\n    x = 1,\n)\n"
+		}
+		_, _, a1, e1 := syntax.ParseSourceBytes([]byte(mk(0)), filepath.Join(dir, "eq1.mro"), nil, false)
+		_, _, a2, e2 := syntax.ParseSourceBytes([]byte(mk(100)), filepath.Join(dir, "eq2.mro"), nil, false)
+		if e1 == nil && e2 == nil {
+			out["MapExp.equal"] = func() string {
+				var sb strings.Builder
+				util.SetPrintLogger(&sb)
+				defer util.SetPrintLogger(&c15DevNull{})
+				eq := a1.EquivalentCall(a2)
+				// drop the timestamps
+				var lines []string
+				for _, l := range strings.Split(sb.String(), "\n") {
+					if i := strings.Index(l, "["); i >= 0 {
+						l = l[i:]
+					}
+					lines = append(lines, l)
+				}
+				return fmt.Sprint(eq, "\n", strings.Join(lines, "\n"))
+			}
+		}
+	}
 	return out
 }
 
@@ -167,6 +217,11 @@ func c10ProvokeCoreSrc(n int) string {
 
 func c10RunProvocations(c *Ctx, boost map[string]bool) {
 	r := c.Res
+	// sites the regenerated list reports as new / changed get 5x repetitions
+	reported := map[string]bool{}
+	for _, fn := range c10ReportedFunctions(c) {
+		reported[fn] = true
+	}
 	ps := c10Provocations(c)
 	names := make([]string, 0, len(ps))
 	for k := range ps {
@@ -179,6 +234,15 @@ func c10RunProvocations(c *Ctx, boost map[string]bool) {
 	}
 	for _, name := range names {
 		f := ps[name]
+		site := name
+		if i := strings.Index(site, "("); i > 0 {
+			site = site[:i]
+		}
+		nrep := reps
+		if reported[site] {
+			nrep = reps * 5
+			r.note("site list reports %s: provocation %q run with %d repetitions", site, name, nrep)
+		}
 		first := ""
 		func() {
 			defer func() {
@@ -190,7 +254,7 @@ func c10RunProvocations(c *Ctx, boost map[string]bool) {
 		}()
 		r.count("provoke\x00"+name+"\x00"+first, true)
 		r.hist("provocation-sites")
-		for k := 1; k < reps; k++ {
+		for k := 1; k < nrep; k++ {
 			got := ""
 			func() {
 				defer func() {
